@@ -636,6 +636,15 @@ func vfC17RunSchedule(sess *Session, d *vfC17Dialer, cl *vfCluster, sch *vfC17Sc
 			divergence = fmt.Sprintf("step %d (%s %s%d): real %s, model %s", k+1, st.Cmd, st.F, st.C, got, st.Exp)
 			break
 		}
+		if st.Cmd == "dial_fail" && st.Exp.Filling && (st.Exp.NDial > 0 || len(st.Exp.Connected) > 0) {
+			// a connect() of the round failed while siblings are still in flight: connectMany is a join, the pool must
+			// go on saying "filling" (longer than fillingStopped's back-off of at most 131 ms) until they have landed
+			time.Sleep(250 * time.Millisecond)
+			if got = r.proj(); got.String() != st.Exp.String() {
+				divergence = fmt.Sprintf("step %d (%s %d, 250 ms later): real %s, model %s", k+1, st.Cmd, st.C, got, st.Exp)
+				break
+			}
+		}
 	}
 	quiet := 40 * time.Millisecond
 	var stuck *vfC17Rec
@@ -716,7 +725,16 @@ func vfC17PoolSession(t testing.TB) (*Session, *vfC17Dialer, *vfCluster) {
 	cfg.disableControlConn = true
 	cfg.DisableInitialHostLookup = true
 	cfg.ReconnectionPolicy = &ConstantReconnectionPolicy{MaxRetries: 1, Interval: time.Millisecond}
-	s, err := NewSession(*cfg)
+	cfg.Timeout = 5 * time.Second // generous: nothing in the replay relies on a driver timeout
+	cfg.ConnectTimeout = 5 * time.Second
+	var s *Session
+	var err error
+	for attempt := 0; attempt < 4; attempt++ { // set-up is retried: it says nothing about the property
+		if s, err = NewSession(*cfg); err == nil {
+			break
+		}
+		time.Sleep(time.Duration(100*(attempt+1)) * time.Millisecond)
+	}
 	if err != nil {
 		t.Fatalf("session: %v", err)
 	}
